@@ -140,8 +140,10 @@ CHECKS = {
              "(vector clocks specialised to sequence numbers), at every slot access EVERY earlier access to the same slot - every fill so far, every access so far by a handler of another stage - is "
              "ordered before it by happens-before (handler_no_race, producer_no_race; two inductive invariants: knowledge and real progress). What the theorem assumes of the code (orderings, order of "
              "operations per thread) is pinned by trace validation on every explored execution; an independent vector-clock race detector over the Ordering arguments the code REALLY passed runs on "
-             "every explored schedule too. Same-stage mutable handlers race: known finding D9 (excluded from the theorem by stage g <> stage h).",
-        note=LEVEL_NOTE_COMMON + "Axioms: none. Release/acquire semantics are modelled as knowledge transfer (one writer per cursor, so no release sequences are needed); multi-producer happens-before is monitored per execution, not proved. C11 stale reads are not explored by the scheduler (the proof does not depend on read freshness beyond monotone lower bounds... in HB.v loads return the current value).",
+             "every explored schedule too. MULTI PRODUCER under true concurrency (Disruptor/MultiPub.v + MultiPubHB.v: any number of producers and first-stage consumers, every atomic operation a step, stale cursor "
+             "loads): a producer fills a slot only when every consumer is done with its previous occupant, a consumer about to touch sequence i is ordered after every fill made so far to that slot, and a "
+             "producer about to fill is ordered after every consumer access and every fill made so far to that slot. Same-stage mutable handlers race: known finding D9 (excluded from the theorem by stage g <> stage h).",
+        note=LEVEL_NOTE_COMMON + "Axioms: none. Release/acquire semantics are modelled as knowledge transfer (one writer per cursor, so no release sequences are needed); multi-producer happens-before is proved for producers + first-stage consumers (each ready bit its own location: the code packs 64 per word, which only adds synchronisation); later stages of a multi-producer pipeline are monitored per execution. C11 stale reads are not explored by the scheduler (the proof does not depend on read freshness beyond monotone lower bounds... in HB.v loads return the current value).",
         technique="Coq proof (inductive invariants over a per-cursor-read interleaving model with happens-before knowledge) + trace validation of orderings + vector-clock race detection on scheduler-controlled executions",
         design="§7.R C05"),
     "C06": dict(
